@@ -61,7 +61,7 @@ func c18Wrappers(p string) []c18Wrapped {
 // that breaks out of a quoted value / text
 func c18WrapPayloads() []string {
 	if verifThorough() {
-		return append(c18UnquotedPayloads(), c18BasePayloads()[:4]...)
+		return append(c18UnquotedPayloads()[:4], c18BasePayloads()[0], c18BasePayloads()[3])
 	}
 	return []string{c18UnquotedPayloads()[0], c18BasePayloads()[0]}
 }
@@ -279,7 +279,8 @@ type c18StoredUser struct {
 	fields             []string
 }
 
-func c18StoredStage(env *verifEnv, res *verifResult, routes []verifRoute) {
+// everywhere: every stored user visits every route (quick tier: when the regenerated tables name a suspect function)
+func c18StoredStage(env *verifEnv, res *verifResult, routes []verifRoute, everywhere bool) {
 	stageStart0 := time.Now()
 	adminU2F := env.cookie("admin", AuthTypePassword|AuthTypeU2F)
 	var users []c18StoredUser
@@ -334,7 +335,7 @@ func c18StoredStage(env *verifEnv, res *verifResult, routes []verifRoute) {
 				} else {
 					res.bump("stored_webauthn_registrations_refused")
 					if _, seen := res.Extra["stored_webauthn_refusal"]; !seen {
-						res.Extra["stored_webauthn_refusal"] = c18Truncate(rr2.Body.String(), 300) + " options=" + c18Truncate(rr.Body.String(), 400)
+						res.Extra["stored_webauthn_refusal"] = c18Truncate(rr2.Body.String(), 300)
 					}
 				}
 			} else {
@@ -376,7 +377,7 @@ func c18StoredStage(env *verifEnv, res *verifResult, routes []verifRoute) {
 				if strings.HasPrefix(route.Path, "/static/") || strings.HasPrefix(route.Path, "/custom_static/") {
 					continue
 				}
-				if ui >= 2 && !verifThorough() && !showing[route.Path] {
+				if ui >= 2 && !verifThorough() && !everywhere && !showing[route.Path] {
 					continue
 				}
 				targets := []string{route.Path}
